@@ -34,7 +34,8 @@ ASSUMPTIONS = ["preemption granularity is the source line of the two store files
                "final-state serializability at the granularity of the STORE's locked operations (clone_graph = "
                "extract_graph then add_graph, two steps), compared structurally (node "
                "ids, classes, connections): add_node writes the extra properties after the node exists, so a "
-               "concurrent clone may see the node without them; NodeIDs added by different threads are distinct",
+               "concurrent clone may see the node without them; NodeIDs are distinct per (thread, graph) - the "
+               "uniqueness check of add_node is not atomic with the insertion, which is outside this statement",
                "liveness beyond 'no thread is parked forever in this bounded run' is not claimed"]
 BUDGET = {"quick": 12000, "thorough": 400000}
 LEVEL = "exploration"
@@ -99,7 +100,11 @@ def _op(draw, tag):
     if k == "import_bad":
         return [k, draw(_gid)]
     if k == "add_node":
-        return [k, draw(_gid), f"{tag}{draw(st.integers(0, 99))}"]
+        # NodeIDs are distinct per (thread, graph): the uniqueness check of add_node is not atomic with the insertion
+        # (C05 covers NodeID uniqueness single-threaded; C20's statement is about lost nodes and internal ids), and
+        # a clone must not carry an id into a graph in which another call adds the same id
+        g = draw(_gid)
+        return [k, g, f"{tag}{g}-{draw(st.integers(0, 99))}"]
     if k == "clone":
         return [k, draw(_gid), draw(_gid)]
     if k in ("delete", "delete_imp", "extract"):
